@@ -631,8 +631,9 @@ func (c *handlerCtx) handleReply() {
 		}
 		c.callCmd.result = c.input.Body()
 		c.stat = c.callCmd.stat
-		c.callCmd.done()
+		// must be set before done() publishes the call: CostTime() reads it after <-Done()
 		c.callCmd.cost = time.Duration(c.sess.timeNow() - c.callCmd.start)
+		c.callCmd.done()
 		if enablePrintRunLog() {
 			c.sess.printRunLog(c.RealIP(), c.callCmd.cost, c.input, c.callCmd.output, typeCallLaunch)
 		}
